@@ -49,8 +49,17 @@ claim("C01",
       "by z3, witness images (with crafted deflate streams) replayed through the unpatched QCow2 class.",
       TRUST, "symbolic execution of qcow2.py + z3 equivalence against a specification oracle", "4.1")
 
+claim("C02",
+      "For hosted sparse (header- and footer-located grain directory, plain and stream-optimized), COWD, SE-sparse and "
+      "flat extents, every enumerated (grain size, table length) and every symbolic file size, capacity, directory/table/"
+      "grain placement and content, compressed-grain header and request of up to N grains (including the tail over-read "
+      "the buffered layer issues), the real VMDK.__init__/_read/read_sectors, SparseDisk.*, SparseExtentHeader and RawDisk "
+      "return exactly the bytes the VMDK-specification oracle names; decided per path by z3, witnesses (with crafted zlib "
+      "streams) replayed through the unpatched classes.",
+      TRUST, "symbolic execution of vmdk.py + z3 equivalence against a specification oracle", "4.2")
+
 PENDING = "check not built yet in this round (planned: see DESIGN.md section 4)"
-for _p in ("C02", "C07", "C08", "C09", "C10", "C11", "C12", "C13", "C14", "C15", "C17", "C20"):
+for _p in ( "C07", "C08", "C09", "C10", "C11", "C12", "C13", "C14", "C15", "C17", "C20"):
     NOT_APPLICABLE[_p] = PENDING
 NOT_APPLICABLE["C16"] = ("the property's content (cstruct writers, AES-GCM, PBKDF2) sits behind C boundaries that would have "
                          "to be stubbed; nothing of the repository's own arithmetic would remain to be decided (DESIGN 5)")
